@@ -121,12 +121,13 @@ type State struct {
 	trace   []string // branch decisions for diagnostics
 	dead    bool
 	locks   map[string]bool
+	quant   int // >0 while evaluating under a quantifier: no side assumptions may mention bound variables
 }
 
 func (s *State) top() *Frame { return s.frames[len(s.frames)-1] }
 
 func (s *State) assume(t Term) {
-	if t.S == "true" {
+	if t.S == "true" || s.quant > 0 {
 		return
 	}
 	s.assumes = s.assumes.push(t)
@@ -195,8 +196,33 @@ func (e *Engine) heapInit(key, sort string, ptrLike bool) Term {
 		if ax, ok := e.closednessAxiom(Term{name, sort}, key, IntLit(0)); ok {
 			e.u.AddAxiom(name, ax)
 		}
+		if ax, ok := e.typedAxiom(Term{name, sort}, key); ok {
+			e.u.AddAxiom(name, ax)
+		}
 	}
 	return Term{name, sort}
+}
+
+// typedAxiom: every value stored in heap array h is well typed (integer ranges, slice headers).
+func (e *Engine) typedAxiom(h Term, key string) (Term, bool) {
+	gt := e.heapGoType[key]
+	if gt == nil || strings.HasPrefix(key, "Glob|") || strings.HasPrefix(key, "Map") {
+		return Term{}, false
+	}
+	var val Term
+	var vars string
+	if strings.HasPrefix(key, "Mem|") {
+		vars = "((r Int) (i Int))"
+		val = Select(Select(h, Term{"r", SInt}), Term{"i", SInt})
+	} else {
+		vars = "((r Int))"
+		val = Select(h, Term{"r", SInt})
+	}
+	f := e.tm.typeFacts(val, gt, 1)
+	if f.S == "true" {
+		return Term{}, false
+	}
+	return Term{fmt.Sprintf("(forall %s (! %s :pattern (%s)))", vars, f.S, val.S), SBool}, true
 }
 
 // closednessAxiom: every pointer-like value stored in array h is <= bound.
@@ -405,6 +431,10 @@ func (s *State) load(p *Ptr) (Value, error) {
 			e.heapGoType[key] = p.Elem
 		}
 		t := s.heapGet(key, sort)
+		s.assumeLoaded(t, p.Elem)
+		if t.Sort == SIface && e.globalInitNonNil(p.Glob) {
+			s.assume(Not(Eq(App("i-type", SInt, t), IntLit(0))))
+		}
 		return s.fromTerm(t, p.Elem), nil
 	case pkObj:
 		if arr, ok := p.Elem.Underlying().(*types.Array); ok {
